@@ -8,6 +8,7 @@
    in_window ro (log time of m); this is the test Reader.walk and Reader.u_next apply.
    Known finding (kept, see C04_before_zero_refuted / C04_window_errors_before_zero_refuted):
    the deprecated Before(0) means "no upper bound", unlike BeforeNanos(0). *)
+From Mcap Require ConstsTie LayoutTie DecisionTieR. (* regenerated ties to /repo's source that this property's model relies on *)
 From Coq Require Import List NArith ZArith Bool Permutation Sorted.
 From Mcap Require Import Bytes GoSem Records Reader Iter.
 Import ListNotations.
